@@ -70,6 +70,27 @@ type Prop struct {
 	Timeout func(tier string) time.Duration
 	Wall    func(tier string) time.Duration
 	Shrink  func(data json.RawMessage) []json.RawMessage
+	Extra   []ExtraGen // generators added later: each has a stream of its own, so the main stream of a seed never changes
+	Slices  []SliceRef // model slices (mirror ties of their own, x_*.go) that run inside this property
+}
+
+// ExtraGen is a generator with its own seeded stream and its own number of cases per tier.
+type ExtraGen struct {
+	Gen             Gen
+	Quick, Thorough int
+}
+
+// SliceRef names a scratch property X<NAME> (registered by an x_*.go file: one model slice with its
+// own generator and differential tie) whose cases also run as part of a real property, and how many.
+type SliceRef struct {
+	Name            string
+	Quick, Thorough int
+}
+
+// SliceCase is the wire form of such a case: the slice and the seed of its generator.
+type SliceCase struct {
+	Slice string `json:"slice"`
+	Seed  uint64 `json:"seed"`
 }
 
 var props = map[string]*Prop{}
@@ -144,6 +165,23 @@ func runCaseRecover(p *Prop, orc *Oracle, data json.RawMessage) (oc Outcome) {
 		}
 		oc.OracleCalls = orc.Calls - before
 	}()
+	var sc SliceCase
+	if json.Unmarshal(data, &sc) == nil && sc.Slice != "" {
+		x := props[sc.Slice]
+		if x == nil {
+			oc.Fail("crash", "harness", "", "unknown slice %q", sc.Slice)
+			return oc
+		}
+		d, _ := json.Marshal(struct {
+			Seed uint64 `json:"seed"`
+		}{sc.Seed})
+		oc.Tag("slice:" + sc.Slice)
+		x.Run(orc, d, &oc)
+		if oc.Key == "" {
+			oc.Key = fmt.Sprintf("%s:%d", sc.Slice, sc.Seed)
+		}
+		return oc
+	}
 	p.Run(orc, data, &oc)
 	return oc
 }
@@ -428,6 +466,34 @@ func buildCases(p *Prop, tier string, seed uint64) []WireCase {
 				b, _ := json.Marshal(d)
 				cases = append(cases, WireCase{Prop: p.ID, Gen: g.Name, Idx: i, Data: b})
 			}
+		}
+	}
+	// 2b. model slices: their own seeded streams (independent of the main stream below, so that adding
+	// a slice never changes which main cases a seed produces)
+	for _, sr := range p.Slices {
+		k := sr.Quick
+		if tier == "thorough" {
+			k = sr.Thorough
+		}
+		sb := mix(mix(seed, hashString(p.ID)), hashString(sr.Name))
+		for i := 0; i < k; i++ {
+			b, _ := json.Marshal(SliceCase{Slice: sr.Name, Seed: mix(sb, uint64(i))})
+			cases = append(cases, WireCase{Prop: p.ID, Gen: "slice:" + sr.Name, Idx: i, Seed: seed, Data: b})
+		}
+	}
+	for _, eg := range p.Extra {
+		k := eg.Quick
+		if tier == "thorough" {
+			k = eg.Thorough
+		}
+		sb := mix(mix(seed, hashString(p.ID)), hashString("extra:"+eg.Gen.Name))
+		for i := 0; i < k; i++ {
+			d := eg.Gen.Make(NewRng(mix(sb, uint64(i))), tier)
+			b, err := json.Marshal(d)
+			if err != nil {
+				panic(err)
+			}
+			cases = append(cases, WireCase{Prop: p.ID, Gen: eg.Gen.Name, Idx: i, Seed: seed, Data: b})
 		}
 	}
 	// 3. seeded generation
